@@ -139,7 +139,7 @@ class C02(PropBase):
                         yield dict(directed=directed, removal=removal, hist=h, family='int', functional=(i % 2 == 1))
 
     def n_random(self, tier):
-        return 700 if tier == 'quick' else 12000
+        return 700 if tier == 'quick' else 40000
 
     def random_cases(self, rnd, n):
         for _ in range(n):
